@@ -241,11 +241,14 @@ def run(chk):
             except Exception as e:  # noqa
                 problems.append("route_%s_raised_%s" % (route, type(e).__name__))
         uid = o["id"].split("--", 1)[1]
+        # with several hashes none of which is MD5 / SHA-1 / SHA-256 / SHA-512 the specification takes "the first": that depends on the order
+        # of the dictionary, so identifiers are only compared with the preimage of this very serialization, not across re-orderings
+        order_dependent = "hashes" in present and len(hk) > 1 and not any(h in hk for h in ("MD5", "SHA-1", "SHA-256", "SHA-512"))
         if exp["kind"] == "uuid5":
             want = typ + "--" + str(uuid.uuid5(NAMESPACE, from_units(exp["pre"])))
             if o["id"] != want:
                 problems.append("id_is_not_uuid5_of_specified_preimage")
-            if len(set(ids.values())) > 1:
+            if len(set(ids.values())) > 1 and not order_dependent:
                 problems.append("id_differs_between_creation_routes")
             # a change to non-contributing properties must not move the id
             kw2 = copy.deepcopy(c["kw"])
@@ -257,7 +260,7 @@ def run(chk):
             if typ == "process" and not kw2:
                 kw2["pid"] = 2
             try:
-                if c["cls"](**kw2)["id"] != o["id"]:
+                if c["cls"](**kw2)["id"] != o["id"] and not order_dependent:
                     problems.append("id_moves_with_non_contributing_property")
             except Exception:  # noqa
                 pass
